@@ -74,6 +74,10 @@ def corpus():
     d = [rng.randint(-32, 32) / 4.0 for _ in es]
     cs.append(_spline_case("spline", es, ns, [d], None, 1e-3, None, 0.5, 0.0))
     cs.append(_spline_case("vector", es, ns, [d, d[::-1]], [[1.0] * 9, [2.0] * 9], 1e-2, None, 0.5, 4.0))
+    fe, fn_ = pts(rng, 4)
+    wts = [[0.5, 4.0, 1.0, 2.0, 0.25, 3.0, 1.5, 1.0, 2.5], [2.0, 1.0, 0.5, 3.0, 1.0, 0.25, 4.0, 1.5, 1.0]]
+    cs.append(_spline_case("spline", es, ns, [d], wts[:1], None, [[x + 1 / 128 for x in fe], fn_], 0.5, 1.0))
+    cs.append(_spline_case("vector", es, ns, [d, d[::-1]], wts, None, [[x + 1 / 128 for x in fe], fn_], 0.5, 4.0))
     return cs
 
 
@@ -113,8 +117,8 @@ def generate(rng, tier):
             ncomp = 1 if kind == "spline" else 2
             data = [[rng.randint(-64, 64) / 4.0 for _ in es] for _ in range(ncomp)]
             w = [[rng.randint(1, 32) / 8.0 for _ in es] for _ in range(ncomp)] if weighted else None
-            if damping is None and force is not None:
-                damping = 10 ** rng.uniform(-6, 0)
+            if damping is None and force is not None and rng.random() < 0.4:
+                damping = 10 ** rng.uniform(-6, 0)       # otherwise: undamped, over-determined (fewer forces than data): weights matter
             cs.append(_spline_case(kind, es, ns, data, w, damping, force, rng.choice([-1.0, -0.25, 0.0, 0.5, 1.0]),
                                    rng.choice([0.0, 1.0, 4.0]) if kind == "spline" else rng.choice([0.5, 4.0, 16.0])))
     return cs
@@ -192,8 +196,14 @@ def compare(case, io, mo):
     pi, pm = J @ np.array(p_impl), J @ np.array(p_model)
     sc = max(1.0, float(np.max(np.abs(d))))
     if np.max(np.abs(pi - pm)) > 1e-6 * sc:
-        cond = np.linalg.cond(J * (np.sqrt(w)[:, None] if w is not None else 1.0))
-        if cond > 1e7 and not alpha:
+        # scikit-learn's LinearRegression solves with lstsq(cond=1e-6)-like singular-value truncation on the column-scaled,
+        # weight-scaled Jacobian: beyond ~1e5 the undamped answer legitimately departs from the exact optimum ("whenever that
+        # problem is well conditioned")
+        sd = J.std(axis=0)
+        Js = J / np.where(sd == 0, 1.0, sd)
+        cond = max(np.linalg.cond(Js * (np.sqrt(w)[:, None] if w is not None else 1.0)),
+                   np.linalg.cond(J * (np.sqrt(w)[:, None] if w is not None else 1.0)))
+        if cond > 1e5 and not alpha:
             return "amb"
         return f"diff:predictions of the fitted parameters differ by {np.max(np.abs(pi - pm))} (scale {sc})"
     if case["fn"] == "trend":
